@@ -103,6 +103,19 @@ Theorem C06_capture_pass1_total_iff_closed :
   ((exists f, capture (watermark st) (pass1 d st) = Ok f) <-> delta_closed d = true).
 Proof. exact capture_pass1_total_iff_closed. Qed.
 
+(* Known finding (key restore:loop-variable-type-token): a Token::default() placeholder stored by pass 1
+   denotes process-dependent values; the restored one denotes the capturing process's.  The theorems
+   above hold outside this class (contributions whose raw values are fixed by the file). *)
+Theorem C06_default_token_placeholder_refuted :
+  exists capturing restoring, restored_placeholder capturing restoring <> fresh_placeholder restoring.
+Proof. exact default_token_placeholder_refuted. Qed.
+
+Theorem C06_default_token_placeholder_iff :
+  forall capturing restoring,
+  restored_placeholder capturing restoring = fresh_placeholder restoring <->
+  first_str capturing = first_str restoring /\ first_path capturing = first_path restoring.
+Proof. exact default_token_placeholder_iff. Qed.
+
 (* Non-vacuity *)
 Example C06_hypotheses_met :
   state_wf ex_st0 = true /\ delta_wf ex_delta = true /\ delta_closed ex_delta = true /\
@@ -135,3 +148,5 @@ Print Assumptions C06_rho_is_window_shift.
 Print Assumptions C06_capture_total_iff_closed.
 Print Assumptions C06_restore_capture_iso.
 Print Assumptions C06_capture_pass1_total_iff_closed.
+Print Assumptions C06_default_token_placeholder_refuted.
+Print Assumptions C06_default_token_placeholder_iff.
